@@ -6,6 +6,7 @@ package main
 import (
 	"fmt"
 	"go/token"
+	"go/types"
 	"strings"
 
 	"golang.org/x/tools/go/ssa"
@@ -955,6 +956,47 @@ func runC14(w *World, r *Report) {
 		}
 	}
 	r.check(okAlready, "failure-leads-to-cancel", "LoadDag/already-loaded", w.Pos(fn.Pos()), "loading into a loaded node is refused", "DagLoaded() true edge does not lead to cancel")
+
+	// serving side: the stream is complete or aborted, never silently partial
+	r.rule("stream-complete", "StreamDAG: every vertex delivered by a walk is sent unless it is in the local visited set, and once a walk was abandoned (drained) nothing more is sent", 2)
+	if sf := w.fx(r, "accountant", "AccountingBook", "StreamDAG"); sf != nil {
+		for _, cl := range sf.fn.AnonFuncs {
+			for _, wc := range callsTo(cl, dagM("AncestorsWalker")) {
+				data := resultAt(wc, 0)
+				recvs, _ := exhaustedEdges(cl, data)
+				isSend := func(in ssa.Instruction) bool {
+					switch x := in.(type) {
+					case *ssa.Send:
+						return !sameVal(x.Chan, data)
+					case *ssa.Select:
+						for _, st := range x.States {
+							if st.Dir == types.SendOnly {
+								return true
+							}
+						}
+					}
+					return false
+				}
+				for _, rv := range recvs {
+					r.check(everyItemPasses(cl, rv, isSend), "stream-complete", "StreamDAG/every-item-sent", lineOf(w, rv), "each walker item is sent (or skipped as already sent)", "a way back to the receive neither sends the vertex nor is the visited-set skip")
+				}
+				bad := 0
+				instrsOf(cl, func(in ssa.Instruction) {
+					if !isDrainCallOf(in, data) {
+						return
+					}
+					walkFrom(in, nil, nil, func(x ssa.Instruction) bool {
+						if isSend(x) {
+							bad++
+							return true
+						}
+						return false
+					})
+				})
+				r.check(bad == 0, "stream-complete", "StreamDAG/abandoned-walk-aborts-stream", lineOf(w, wc), "after a walk was abandoned no further vertex is streamed", fmt.Sprintf("%d sends reachable after draining an abandoned walk: the stream would look complete while ancestors are missing", bad))
+			}
+		}
+	}
 
 	r.rule("genesis-from-root", "the genesis address stored by LoadDag is the issuer of a root vertex", 1)
 	okGen := false
